@@ -89,17 +89,33 @@ def tooBig (maxSize : Option Nat) (size : Nat) : Bool :=
   | none => false
 
 /-- `recv()`'s loop after `from_recv_buffer`: pull pieces until EOD. `wouldBlock` = the scripted
-    socket has nothing more (the real reader would block). `size` counts received pieces only. -/
-def recvLoop (maxSize : Option Nat) (size : Nat) (s : RS) : List Bytes → Except Err Result
+    socket has nothing more (the real reader would block). An oversized message is read to its end
+    like any other (see `runLimited`). -/
+def recvLoop (s : RS) : List Bytes → Except Err Result
   | [] => if s.eod then .ok ⟨s.data, s.after, []⟩ else .error .wouldBlock
   | piece :: rest =>
     if s.eod then .ok ⟨s.data, s.after, piece :: rest⟩
     else if piece.isEmpty then .error .connectionLost
-    else if tooBig maxSize (size + piece.length) then .error .messageTooBig
-    else recvLoop maxSize (size + piece.length) (addLines s piece) rest
+    else recvLoop (addLines s piece) rest
 
-/-- `DataReader(io, max_size).recv()` with `io.recv_buffer = buf0` and the socket yielding `segs`. -/
-def run (maxSize : Option Nat) (buf0 : Bytes) (segs : List Bytes) : Except Err Result :=
-  recvLoop maxSize 0 (addLines {} buf0) segs
+/-- `DataReader(io).recv()` with `io.recv_buffer = buf0` and the socket yielding `segs`. -/
+def run (buf0 : Bytes) (segs : List Bytes) : Except Err Result :=
+  recvLoop (addLines {} buf0) segs
+
+structure Limited where
+  data : Option Bytes        -- `none`: MessageTooBig was raised (after the whole message was consumed)
+  recvBuffer : Bytes
+  unread : List Bytes
+deriving Repr, DecidableEq
+
+/-- `DataReader(io, max_size).recv()`: the size is the number of bytes up to and including the
+    end-of-data line. -/
+def runLimited (maxSize : Option Nat) (buf0 : Bytes) (segs : List Bytes) : Except Err Limited :=
+  match run buf0 segs with
+  | .error e => .error e
+  | .ok r =>
+    let consumed := (buf0.length + segs.flatten.length) - (r.recvBuffer.length + r.unread.flatten.length)
+    if tooBig maxSize consumed then .ok ⟨none, r.recvBuffer, r.unread⟩
+    else .ok ⟨some r.data, r.recvBuffer, r.unread⟩
 
 end Slimta.Data
